@@ -3,6 +3,9 @@ CONSTANTS
   Nodes <- TraceNodes
   R <- TraceR
   InitK <- TraceR
+  Parts <- TraceParts
+  Writers = {1}
+  RSet <- TraceRSet
   MaxEpoch = 0
   MaxID = 0
   G_OnePending = TRUE
@@ -14,6 +17,7 @@ CONSTANTS
   G_Distinct = TRUE
   G_LeftRaft = TRUE
   G_CAS = TRUE
+  G_Surplus = TRUE
   CountCalls = FALSE
   MaxDown = 64
   MaxUnsynced = 64
